@@ -196,6 +196,51 @@ Example snapshot_cut_ondisk_nonvacuous :
   end.
 Proof. vm_compute. repeat split. Qed.
 
+(* A STREAMED SNAPSHOT NEVER CARRIES DATA NEWER THAN ITS INDEX (on-disk state
+   machines; node.canStream -> StateMachine.ReadyToStream). A replica restarted
+   with its state machine opened at D, recovered from the snapshot it had recorded
+   and handed any part of its log accepts a Stream task only in states whose image
+   has OnDiskIndex <= Index; while it still replays below D the task is refused. *)
+Theorem stream_image_not_ahead :
+  forall (S result : Type) (sm_update : S -> bytes -> S * result) norm
+         (sm_save : S -> bytes) (sm_recover : bytes -> option S),
+  (forall s, sm_recover (sm_save s) = Some s) ->
+  forall cfg cap (s : S) D img (st_r st : @state S result) es evs m st1,
+  c_ondisk cfg = true -> i_od img <= i_index img ->
+  recover sm_recover cfg true (open_ondisk (init_state cap s) D) img = Ok (Recovered st_r) ->
+  run_entries sm_update norm cfg st_r es = Ok (st, evs) ->
+  ready_to_stream cfg (sync st) = true ->
+  prepare cfg SSStreaming (sync st) = Ok (Prepared m st1) ->
+  mt_od m <= mt_index m /\ i_od (image_of sm_save cfg m) <= i_index (image_of sm_save cfg m).
+Proof. exact @stream_image_not_ahead_proved. Qed.
+Print Assumptions stream_image_not_ahead.
+
+(* the guard is needed: the disk at 4, the dummy snapshot at 3, one entry replayed
+   ... the replica is not ready, and the image it would stream has the metadata of
+   index 3 with the data of index 4; once the replay has passed 4 it is ready *)
+Example stream_guard_nonvacuous :
+  let cfg := mkCfg true false in
+  match rsm_run_entries cfg (rsm_init 4 0) (firstn 2 demo_disk_log),
+        rsm_run_entries cfg (rsm_init 4 0) (firstn 4 demo_disk_log) with
+  | Ok (sk, _), Ok (sd, _) =>
+    match rsm_snapshot cfg SSRegular (sync sk) with
+    | Ok (Snap img _) =>
+      match rsm_recover cfg true (rsm_open_ondisk (rsm_init 4 (r_sm sd)) 4) img with
+      | Ok (Recovered r) =>
+        match rsm_apply_task cfg r (firstn 1 (skipn 2 demo_disk_log)), rsm_apply_task cfg r (skipn 2 demo_disk_log) with
+        | Ok (r3, _), Ok (r6, _) =>
+          rsm_ready_to_stream cfg r3 = false /\ r_index r3 = 3 /\ r_od r3 = 4 /\
+          rsm_ready_to_stream cfg r6 = true /\ r_index r6 = 6 /\ r_od r6 = 6
+        | _, _ => False
+        end
+      | _ => False
+      end
+    | _ => False
+    end
+  | _, _ => False
+  end.
+Proof. vm_compute. repeat split. Qed.
+
 (* ---- compaction (node.go doSave / compactLog / getCompactionIndex / recover /
    removeLog) ---------------------------------------------------------------- *)
 
@@ -271,6 +316,7 @@ Theorem source_tie :
   src_compaction_user_overhead = true /\ src_compaction_overhead = true /\
   src_dosave_order = true /\ src_commit_order = true /\ src_recover_order = true /\
   src_remove_log_order = true /\ src_save_raft_state_before_process_snapshot = true /\
-  src_snapshot_update_not_fast_applied = true.
+  src_snapshot_update_not_fast_applied = true /\
+  src_can_stream_guard = true /\ src_ready_to_stream = true /\ src_concurrent_save_syncs = true.
 Proof. exact source_tie_proved. Qed.
 Print Assumptions source_tie.
